@@ -2,6 +2,8 @@ import Operon.Lemmas.C14
 import Operon.Lemmas.C15
 import Operon.Lemmas.C14Tr
 import Operon.Lemmas.C14Held
+import Operon.Model.CoordProbe
+import Operon.Gen.CoordExecProbe
 import Operon.Gen.CoordTranslated
 /-!
 # C14 — coordinated operations release every resource on every exit path
@@ -576,6 +578,25 @@ theorem c14_translation_agrees_forget_operation (s : Sys) (o : Nat) (hn : (s.edg
   simp [Sys.mapLocks, c14_translation_agrees_remove_all_for_agent _ hn, bne_decide]
 
 
+
+/-- **The skeleton of `exec` is the code's, on the complete domain of callback outcomes (table regenerated from the
+    source on every run).**  `Gen.execProbe` (harness/vf/extract/exec_probe.py) is the real
+    `CoordinationSystem.execute_operation` EVALUATED on a fresh system with one free resource, requesting it, for every
+    combination of the four checkpoint evaluations (default condition / returns False / raises), the work function
+    returning or raising, and the validator absent / True / False / raising — 648 rows, all of `probeDomain`.  On
+    every row the hand-written model `exec` reports the same success flag and the same phase, its callbacks run in
+    exactly the observed order (which checkpoint, work, validation event follows which, and where the call stops), and
+    afterwards nothing is active and the resource is free — in the model and in the code.  So the clauses "work at most
+    once", "validation only after work completed", "success only if both succeeded" are facts about the code's own
+    control flow on this domain, not only about the model (audit F3).  A proof by `decide` over the complete finite
+    table; callbacks that act on the system, other request lists and other initial states are covered by the ∀-theorems
+    above (model) and by the differential correspondence (code). -/
+theorem c14_exec_table_agrees_with_source :
+    Gen.execProbeOk = true ∧
+    Gen.execProbe.map (fun r => (r.1, r.2.1, r.2.2.1)) = probeDomain ∧
+    ∀ r ∈ Gen.execProbe, probeRow r.1 r.2.1 r.2.2.1 = (r.2.2.2.1, r.2.2.2.2.1, r.2.2.2.2.2.1, r.2.2.2.2.2.2) ∧
+      r.2.2.2.2.2.2 = true := by
+  decide +kernel
 
 /-! ### Non-vacuity: concrete systems meeting the hypotheses -/
 
